@@ -4,6 +4,7 @@ BIT-1 `UnsignedInteger::bit_index` - the map from logical bit i to the coefficie
       that places the bits of byte b at b + t * 2^LOG_BYTES (the stride the byte-isolating trace relies on).  Decided by interpreting the MIR of the (straight-line,
       integer-only) function on all BITS inputs with the associated constants of each impl: an exhaustive evaluation of a constant table, like C13.
 BIT-2 every associated constant of an impl is consistent with BITS: LOG_BITS = ceil(log2 BITS), LOG_BYTES = LOG_BITS - 3, LOG_BYTES_MASK = 2^LOG_BYTES - 1
+DSZ-1 a function that places the row gadgets of a GGSW / GGLWE itself (reads dnum(), multiplies base2k()) also reads dsize()
 BIT-3 blind retrieval (forward and reverse butterfly): the swap stage of distance 2^e is controlled by stored bit bit_rsh + e
 BDD-* (shared with C13) every shipped circuit computes its word function for all inputs and each word operation is bound to its table
 THR-4/6/7 (shared with C20) the multi-threaded evaluators and the partial-preparation windows address every bit exactly once
@@ -105,6 +106,47 @@ def bit1(p, res):
     return n
 
 
+def dsz1(p, res):
+    """row gadgets of a matrix ciphertext: the gadget of row i sits at (i + 1) * dsize * base2k bits.  A function that places row values itself - it reads the object's `dnum()`
+    and multiplies its `base2k()` - has to read its `dsize()` too (or it silently assumes dsize == 1)"""
+    from .cfg import Flow
+    T = ("to_ref", "to_mut", "deref", "deref_mut", "borrow", "borrow_mut", "as_ref", "as_mut", "clone", "into", "from", "as_usize", "as_u32")
+    n = 0
+    for f in sorted(p.lib_fns(), key=lambda x: x.uid):
+        if f.kind == "Closure" or not f.blocks or not f.uid.startswith(("poulpy_core::", "poulpy_bin_fhe::", "poulpy_ckks::")) or "::test_suite::" in f.uid \
+                or f.name.endswith(("tmp_bytes", "tmp_bytes_default")) or "::layouts::" in f.uid:
+            continue
+        flow = Flow(f, transparent=T)
+        acc = {}
+        for bi, t in f.calls():
+            nm = (f.callee_def(t) or {}).get("n")
+            if nm in ("dnum", "dsize", "base2k") and t["a"]:
+                for r in flow.op_roots(t["a"][0]):
+                    if r[0] == "param":
+                        acc.setdefault(r[1], {}).setdefault(nm, []).append(bi)
+        for pi, d in sorted(acc.items()):
+            if "dnum" not in d or "base2k" not in d:
+                continue
+            mul = None
+            for blk in f.blocks:
+                for st in blk["s"]:
+                    if st[0] == "A" and st[2]["k"] == "Bin" and st[2].get("op", "").startswith("Mul"):
+                        for o in st[2]["o"]:
+                            if any(r[0] == "call" and r[1] in d["base2k"] for r in flow.op_roots(o)):
+                                mul = st[3] if len(st) > 3 else None
+            if mul is None and not any(True for _ in ()):
+                continue
+            n += 1
+            pn = f.param_names()
+            if "dsize" in d:
+                res.ok("DSZ-1", {"fn": f.pretty, "object": pn.get(pi)})
+            else:
+                res.bad("DSZ-1", f.pretty, "row-gadget-without-dsize(%s)" % pn.get(pi),
+                        "%s computes positions for the rows of `%s` from its base2k() and dnum() and never reads its dsize(): for dsize > 1 the values land at (i + 1) * base2k "
+                        "instead of (i + 1) * dsize * base2k" % (f.pretty, pn.get(pi)), site=f.where(mul))
+    return n
+
+
 def bit3(p, res):
     """butterfly networks over the bits of an encrypted index (blind retrieval, forward and reverse): the conditional swap at distance 2^e is controlled by bit e of the selected
     sub-field, i.e. by stored bit  bit_rsh + e:  for every `get_bit(k)` and every stride `1 << e` of the same function,  k - e == bit_rsh  (identity in the loop variables)"""
@@ -174,6 +216,7 @@ def run(res, tier):
                        "homomorphic pipeline are not decided.")
     res.rule("BIT-1", "bit_index is a permutation of [0, BITS) placing bit t of byte b at b + t * 2^LOG_BYTES, for every implementing type")
     res.rule("BIT-2", "LOG_BITS / LOG_BYTES / LOG_BYTES_MASK of every impl are consistent with BITS")
+    res.rule("DSZ-1", "a function that places row gadgets of a matrix ciphertext from its base2k() and dnum() reads its dsize()")
     res.rule("BIT-3", "blind retrieval butterflies: the stage of distance 2^e is controlled by stored bit bit_rsh + e (forward and reverse networks)")
     res.rule("THR-4", "exact partition of the work items of the multi-threaded evaluators")
     res.rule("THR-6", "window parameters keep their role across forwarding calls")
@@ -184,6 +227,8 @@ def run(res, tier):
         p = facts.load(cfg)
         n = bit1(p, res)
         res.floor("BIT-1", "UnsignedInteger impls", n, 5)
+        nd = dsz1(p, res)
+        res.floor("DSZ-1", "functions placing row gadgets", nd, 3)
         n3 = bit3(p, res)
         res.floor("BIT-3", "blind retrieval butterfly networks", n3, 2)
         c20.thr4(p, res)
